@@ -9,12 +9,22 @@ ARG = ["Int", "String", "Float", "Symbol", "Bool", "Untyped", "Int|String", "?In
 VAL = {"Int": "1", "String": "'s'", "Float": "1.5", "Symbol": ":a", "Bool": "true", "Untyped": "1", "Array": "[1]", "Hash": "{}"}
 
 
-def gen_classes(rng, n, prefix="Gz"):
-    """n classes with extends chains; method names are unique per class (prefix with the class name)."""
+def qual(c):
+    return c["class"] if c["frame"] == "Builtin" else c["frame"] + "::" + c["class"]
+
+
+def gen_classes(rng, n, prefix="Gz", frames=False):
+    """n classes with extends chains; method names are unique per class (prefix with the class name).
+    frames=True: some classes live in a non-Builtin frame and name their (Builtin-frame) parent unqualified."""
     classes = []
     for i in range(n):
         name = "%s%d" % (prefix, i)
         parent = ["%s%d" % (prefix, rng.randrange(i))] if i > 0 and rng.random() < 0.5 else []
+        frame = "Builtin"
+        if frames and i > 0 and rng.random() < 0.4:
+            frame = "Nz%s%d" % (prefix, i)
+            builtin_parents = [c["class"] for c in classes if c["frame"] == "Builtin"]
+            parent = [rng.choice(builtin_parents)] if builtin_parents and rng.random() < 0.8 else []
         ims, cms = [], []
         for k in range(rng.randint(1, 4)):
             m = {"name": "%s_i%d" % (name.lower(), k), "arguments": [{"type": [rng.choice(ARG)]} for _ in range(rng.randint(0, 2))],
@@ -24,8 +34,12 @@ def gen_classes(rng, n, prefix="Gz"):
             m = {"name": "%s_c%d" % (name.lower(), k), "arguments": [{"type": [rng.choice(ARG)]} for _ in range(rng.randint(0, 2))],
                  "return_type": {"type": [rng.choice(RET)]}}
             cms.append(m)
-        cms.append({"name": "new", "arguments": [], "return_type": {"type": [name]}})
-        classes.append({"frame": "Builtin", "class": name, "instance_methods": ims, "class_methods": cms, "extends": parent})
+        cms.append({"name": "new", "arguments": [], "return_type": {"type": [name if frame == "Builtin" else frame + "::" + name]}})
+        if frame != "Builtin":
+            # an instance of a class outside the Builtin frame is obtained from a Builtin-frame class method
+            maker = rng.choice([c for c in classes if c["frame"] == "Builtin"])
+            maker["class_methods"].append({"name": "mk_%s" % name.lower(), "arguments": [], "return_type": {"type": [frame + "::" + name]}})
+        classes.append({"frame": frame, "class": name, "instance_methods": ims, "class_methods": cms, "extends": parent})
     return classes
 
 
@@ -35,7 +49,12 @@ def program_for(rng, classes):
     by = {c["class"]: c for c in classes}
     for c in classes:
         v = "o_" + c["class"].lower()
-        lines.append("%s = %s.new" % (v, c["class"]))
+        if c["frame"] == "Builtin":
+            lines.append("%s = %s.new" % (v, c["class"]))
+        else:
+            mk = next(x["class"] for x in classes if any(m["name"] == "mk_%s" % c["class"].lower() for m in x["class_methods"]))
+            lines.append("%s = %s.mk_%s" % (v, mk, c["class"].lower()))
+        lines.append("dbtp %s" % v)
         chain, cur = [], c
         seen = set()
         while cur and cur["class"] not in seen:
@@ -53,10 +72,10 @@ def program_for(rng, classes):
                     lines.append("%s = %s.%s(%s)" % (r, v, m["name"], ", ".join(args)))
                     lines.append("dbtp %s" % r)
         for m in c["class_methods"]:
-            if m["name"] == "new":
+            if m["name"] == "new" or c["frame"] != "Builtin":
                 continue
             args = [VAL.get(a["type"][0].lstrip("?*").split("|")[0].strip("[]"), "1") for a in m["arguments"]]
-            lines.append("%s.%s(%s)" % (c["class"], m["name"], ", ".join(args)))
+            lines.append("%s.%s(%s)" % (qual(c), m["name"], ", ".join(args)))
         lines.append("%s.nope_%d" % (v, len(lines)))
     return "\n".join(lines) + "\n"
 
